@@ -110,7 +110,7 @@ def write(nodes, rng=None, p_climb=0.4):
 def random_abbreviation(rng, rich=True):
     "A valid abbreviation with most features of the language (for prefix/mutation workloads)."
     kw = dict(p_nameless=0.15, p_text=0.25, p_selfclose=0.1,
-              texts=['t', 'hello world', 'a ${1:x} b', 'Item $', '\\{x\\}', '{y}', 'q $$@3', '$#'],
+              texts=['t', 'hello world', 'a ${1:x} b', 'Item $', '\\{x\\}', '{y}', 'q $$@3', '$#', '${1}', 'x ${2}', '${0:z}', 'l1\nl2', '${1}${2}'],
               attrs=['[title=x]', '[data-a="b c"]', '[k]', "[a='b']", '[a.]', '[!b]', '[x=${1}]', '[n=$@-]', '[e={v}]', '[a b=c d="e"]'],
               classes=['c1', 'c2', 'c-3', 'item$', 'k$$@2', '-e', '_m'], names=BLOCK + INLINE + ['a', 'img', 'input', 'label', 'lorem3', 'bq', '!'])
     tree = gen_tree(rng, **kw)
